@@ -205,7 +205,7 @@ def plan_history(rng, region, tier):
 
 def gen(rng, tier):
     lines = []
-    nh = 60 if tier == "quick" else 700
+    nh = 60 if tier == "quick" else 240      # thorough: ~50 000 histories (700 took 18 minutes)
     for region in range(9):
         r = rng.fork("p%d" % region)
         for k in range(nh):
